@@ -33,7 +33,7 @@ MUTANTS = [
     M("c09-cat-qtype-identity", "C09", "break", [(OPS, "            and t1.qtype == t2.qtype", "            and t1.qtype is t2.qtype")], "C09.R8"),
     M("c09-refactor-qtype-none-test", "C09", "refactor", [(QMOD, "        if self.weight_qtype is None:\n            # QModule that does not quantize its weights", "        if None is self.weight_qtype:\n            # QModule that does not quantize its weights")]),
     # ---------------- C12 batch skipped
-    M("c12-skip-zero-output", "C12", "break", [(CAL, "            output_scale = absmax_scale(qoutput, module.activation_qtype, axis=None)\n", "            output_scale = absmax_scale(qoutput, module.activation_qtype, axis=None)\n            if not torch.any(output_scale > 0):\n                return output\n")], "C12.R3"),
+    M("c12-skip-zero-output", "C12", "break", [(CAL, "            output_scale = absmax_scale(qoutput, module.activation_qtype, axis=None)\n", "            output_scale = absmax_scale(qoutput, module.activation_qtype, axis=None)\n            if not torch.any(output_scale > 0):\n                return output\n")], "C12.R4"),
     # ---------------- C13 shared container of hook handles
     M("c13-class-level-handles", "C13", "break", [(CAL, "class Calibration(TorchFunctionMode):\n", "class Calibration(TorchFunctionMode):\n    _handles = []\n"),
                                                    (CAL, "        self.pre_handle = register_module_forward_pre_hook(self.calibrate_input)\n        self.post_handle = register_module_forward_hook(self.calibrate_output)", "        self._handles.append(register_module_forward_pre_hook(self.calibrate_input))\n        self._handles.append(register_module_forward_hook(self.calibrate_output))"),
@@ -42,4 +42,9 @@ MUTANTS = [
     M("c15-pack-shift-unwidened", "C15", "break", [(AWQ, "            packed_col = unpacked[:, col * pack_num + order_map[i]].to(torch.int32)", "            packed_col = unpacked[:, col * pack_num + order_map[i]]")], "C15.R11"),
     M("c15-packv2-shift-unwidened", "C15", "break", [(AWQ, "    packed = packed.to(torch.int32)\n    packed = packed[..., 0] |", "    packed = packed[..., 0] |")], "C15.R11"),
     M("c15-refactor-pack-widen-int64", "C15", "refactor", [(AWQ, "            packed_col = unpacked[:, col * pack_num + order_map[i]].to(torch.int32)", "            packed_col = unpacked[:, col * pack_num + order_map[i]].to(torch.int64)")]),
+    # ---------------- C12.R2 first-batch marker (finding F31 stays a known finding under re-spellings; a marker that is not the initial value is a break)
+    M("c12-refactor-marker-method-form", "C12", "refactor", [(CAL, "    if torch.all(scale == 1):", "    if (scale == 1).all():")]),
+    M("c12-marker-not-initial-value", "C12", "break", [(CAL, "    if torch.all(scale == 1):", "    if torch.all(scale == 0):")], "C12.R2"),
+    M("c12-first-batch-flag-on-context", "C12", "break", [(CAL, "def _updated_scale(scale, new_scale, momentum):\n    if torch.all(scale == 1):", "def _updated_scale(scale, new_scale, momentum, first=False):\n    if first:"),
+                                                          (CAL, "                module.input_scale = _updated_scale(module.input_scale, input_scale, self.momentum)", "                first = getattr(self, \"_seen_in\", None) is None\n                self._seen_in = True\n                module.input_scale = _updated_scale(module.input_scale, input_scale, self.momentum, first)")], "C12.R2"),
 ]
